@@ -13,16 +13,87 @@ def _init():
     os.environ.setdefault("OMP_NUM_THREADS", "1")
 
 
-def pmap(func, items, workers: int | None = None, chunk: int = 64):
-    """Deterministic parallel map (order preserved) over spawned workers."""
+class Crashed:
+    """Placeholder result for a task whose worker process died (segfault in a native library) or hung."""
+    def __init__(self, item, why):
+        self.item, self.why = item, why
+
+    def __repr__(self):
+        return f"Crashed({self.why})"
+
+
+def _run_chunk(args):
+    func, chunk = args
+    return [func(i) for i in chunk]
+
+
+def _kill(ex):
+    ex.shutdown(wait=False, cancel_futures=True)
+    for p in list((getattr(ex, "_processes", None) or {}).values()):
+        try:
+            p.kill()
+        except Exception:
+            pass
+
+
+def pmap(func, items, workers: int | None = None, chunk: int = 64, task_timeout: float = 300.0):
+    """Deterministic parallel map (order preserved) over spawned workers.  A worker that dies or hangs
+    does not hang the map: its chunk is retried item by item in fresh processes and the offending item
+    yields a `Crashed` result."""
+    import concurrent.futures as cf
     items = list(items)
     workers = workers or min(14, max(1, (os.cpu_count() or 2) - 2))
-    if len(items) < 50 or workers == 1:
+    if (len(items) < 50 and chunk >= 16) or workers == 1:
         _init()
         return [func(i) for i in items]
     ctx = mp.get_context("spawn")
-    with ctx.Pool(workers, initializer=_init) as pool:
-        return pool.map(func, items, chunksize=chunk)
+    chunks = [items[i:i + chunk] for i in range(0, len(items), chunk)]
+    results: list = [None] * len(chunks)
+    ex = cf.ProcessPoolExecutor(max_workers=min(workers, len(chunks)), mp_context=ctx, initializer=_init)
+    futs = {k: ex.submit(_run_chunk, (func, chunks[k])) for k in range(len(chunks))}
+    broken = []
+    for k, f in futs.items():
+        try:
+            results[k] = f.result(timeout=task_timeout + 20 * len(chunks[k]))
+        except Exception:   # BrokenProcessPool, TimeoutError
+            broken.append(k)
+    _kill(ex)
+    if broken:
+        singles, owner = [], []
+        for k in broken:
+            for i in chunks[k]:
+                singles.append(i)
+                owner.append(k)
+        sub = _pmap_isolated(func, singles, workers, ctx, task_timeout)
+        for k in broken:
+            results[k] = [r for r, o in zip(sub, owner) if o == k]
+    return [r for ch in results for r in ch]
+
+
+def _pmap_isolated(func, singles, workers, ctx, task_timeout):
+    """One item per task in small pools; an item whose process dies again when run alone is `Crashed`."""
+    import concurrent.futures as cf
+    res: dict = {}
+    todo = list(range(len(singles)))
+    while todo:
+        batch, todo = todo[:workers], todo[workers:]
+        ex = cf.ProcessPoolExecutor(max_workers=len(batch), mp_context=ctx, initializer=_init)
+        futs = {k: ex.submit(_run_chunk, (func, [singles[k]])) for k in batch}
+        failed = []
+        for k, f in futs.items():
+            try:
+                res[k] = f.result(timeout=task_timeout)[0]
+            except Exception:
+                failed.append(k)
+        _kill(ex)
+        for k in failed:
+            ex1 = cf.ProcessPoolExecutor(max_workers=1, mp_context=ctx, initializer=_init)
+            try:
+                res[k] = ex1.submit(_run_chunk, (func, [singles[k]])).result(timeout=task_timeout)[0]
+            except Exception as e:
+                res[k] = Crashed(singles[k], f"worker process died or hung ({type(e).__name__})")
+            _kill(ex1)
+    return [res[k] for k in range(len(singles))]
 
 
 def outcome(fn, *args):
